@@ -6,7 +6,7 @@ from pyvc.sym import Sym
 META = {
     "explanation": "intdiv proved for all integers; integer scaling, negation, addition and subtraction of equilibria proved (net stoichiometry, positivity, netted form, side swap, constant = product of powers) for every coefficient and constant at fixed key layouts that include species on opposite sides, shared species and operands that have a species on both sides themselves; cancel (also fed back to the operators) and as_reactions likewise; the induction over operation histories is the Lean lemma pair nu_eq_combination / const_eq_product_of_powers (lemmas/C11_history.lean); two- and three-step expressions are also proved directly on the code, and expression trees with exact constants (Fraction, sympy rationals and symbols) are replayed on the real objects with exact comparison at every node. The listing clause (every coefficient positive, netted, cancelled species removed) is NOT carried by the lemma, which is about net stoichiometry and constant only: it is proved for one addition/subtraction of arbitrary operands of the layouts, i.e. for the OUTERMOST add/sub of any history, and positivity for one scaling",
     "trusted_base": ["pow(K, n) axioms (5.3)", "Lean 4 kernel + Mathlib for lemmas/C11_history.lean (re-checked on every run, C11.lemma.*): for any expression over any number of operands, net stoichiometry = sum_i c_i nu_i and constant = prod_i K_i^c_i, given that one scaling/addition/subtraction acts as proved in C11.scale/add/sub; the correspondence between `EqExpr.nu/const` and those obligations is by inspection. The Lean operations are total, the code's are not (see assumptions): the theorem transfers to the histories in which no sub-expression has an empty net stoichiometry"],
-    "not_decided": ["Equilibrium.eliminate: the common multiple comes from sympy.primefactors (bounded stand-in, exhaustive on [-60,60]^2)",
+    "not_decided": ["Equilibrium.eliminate: the common multiple comes from sympy.primefactors (bounded stand-in, exhaustive on [-60,60]^2; on the real code: all pairs in [-12,12]^2, and by class of coefficient -- every value up to 2000 and every exact prime power up to 70000 against coprime, dividing, multiple, equal and opposite partners, eliminate.any_coefficients)",
                     "constants given as Python int: a negative factor turns them into float (49 ** -1), so -(-e) has the constant 49.00000000000001; exactness is stated for Fraction and sympy constants only (histories.exact_constants)"],
     "assumptions": ["key layouts fixed per harness (shape-bounded)",
                     "histories without a sub-expression whose net stoichiometry is empty: 0*e, e - e, e + reverse(e), also as an intermediate as in (e1 - e1) + e2, are refused by the pinned tree (ValueError from the result's constructor) where the statement reads as the empty equilibrium with constant 1; scale.* assume n != 0, and degenerate_and_inactive.* state that such an expression is refused or exact, never something else",
@@ -344,6 +344,79 @@ def _(v):
                 if not ok:
                     bad.append((v0, v1, both, m0, m1))
     v.prove("multipliers_eliminate_the_species", not bad and n == 2 * 24 * 24 and formed == 2 * 16 * 16, detail="%d bad of %d (%d formed): %s" % (len(bad), n, formed, bad[:5]))
+
+
+@harness("C11", "eliminate.any_coefficients", functions=[CH + ":Equilibrium.eliminate", CH + ":Equilibrium.__rmul__", CH + ":Equilibrium.__add__"], kind="data")
+def _(v):
+    """'every pair of equilibria sharing a species with ANY non-zero coefficients': the elimination clause beyond the small grid of eliminate.pairs, by
+    classes of the coefficient rather than by a range.  (1) every net coefficient 13..2000; (2) every exact prime power p**k (k >= 2) up to 70000 --
+    the coefficients whose prime multiplicity is the whole number, where a multiplicity, root or logarithm taken in floating point sits on a rounding
+    edge; each against partners that are coprime to it, divide it, are a multiple of it, share only part of its factors, are equal and are opposite,
+    in both positions, with both signs, the species on one side or on both.  Stated is the relation only (non-zero, usable as integers,
+    m0*v0 + m1*v1 = 0; which multiple is chosen is free).  For the prime powers the combination is also formed by the real operators from the
+    multipliers as returned, with symbolic constants (the multipliers may be long: K**m stays a power): the species is not listed, the other
+    species carry the multipliers, the constant is K1**m0 * K2**m1"""
+    import operator
+    import sympy
+    from chempy.chemistry import Equilibrium
+    K1, K2 = sympy.symbols("K1 K2", positive=True)
+
+    def mk(vv, other, K, extra):
+        reac, prod = {other: 1}, {other + "p": 1}
+        if vv < 0 or extra:
+            reac["X"] = extra + (-vv if vv < 0 else 0)
+        if vv > 0 or extra:
+            prod["X"] = extra + (vv if vv > 0 else 0)
+        return Equilibrium(reac, prod, K, checks=())
+
+    def prime_powers(limit):        # trial division, integers only
+        out, p = [], 2
+        while p * p <= limit:
+            if all(p % q for q in range(2, int(p ** 0.5) + 1)):
+                q = p * p
+                while q <= limit:
+                    out.append(q)
+                    q *= p
+            p += 1
+        return sorted(out)
+
+    bad = []
+    count = {"range": 0, "prime_power": 0, "formed": 0}
+
+    def one(cls, v0, v1, extra, form):
+        count[cls] += 1
+        m0 = m1 = None
+        try:
+            e0, e1 = mk(v0, "P", K1, extra), mk(v1, "Q", K2, extra)
+            ok = e0.prod.get("X", 0) - e0.reac.get("X", 0) == v0 and e1.prod.get("X", 0) - e1.reac.get("X", 0) == v1
+            m0, m1 = Equilibrium.eliminate([e0, e1], "X")
+            i0, i1 = operator.index(m0), operator.index(m1)
+            ok = ok and i0 == m0 and i1 == m1 and i0 != 0 and i1 != 0 and i0 * v0 + i1 * v1 == 0
+            if ok and form:
+                count["formed"] += 1
+                comb = m0 * e0 + m1 * e1
+                net = {"P": -i0, "Pp": i0, "Q": -i1, "Qp": i1}        # X: i0*v0 + i1*v1 = 0, not listed
+                ok = (dict(comb.reac) == {k: -c for k, c in net.items() if c < 0} and dict(comb.prod) == {k: c for k, c in net.items() if c > 0}
+                      and (comb.param == K1 ** i0 * K2 ** i1 or comb.param / (K1 ** i0 * K2 ** i1) == 1))        # powers of positive symbols combine
+        except Exception as ex:
+            ok = False
+            m1 = repr(ex)
+        if not ok:
+            bad.append((cls, v0, v1, extra, str(m0)[:40], str(m1)[:40]))
+
+    for a in range(13, 2001):
+        for b in (1, -2, 6, 12, a, -a):
+            one("range", a, b, 0, False)
+            one("range", b, -a, 0, False)
+    pps = prime_powers(70000)
+    for a in pps:
+        p = next(q for q in range(2, a) if a % q == 0)        # its prime
+        for b in (1, -2, 7, 30, p, a // p, a * p, 2 * a, a, -a, 243 if p != 3 else 1024):
+            for extra in (0, 3):
+                one("prime_power", a, b, extra, extra == 0 and a <= 5000)
+                one("prime_power", -b, a, extra, False)
+    v.prove("multipliers_eliminate_the_species", not bad and count["range"] == 2 * 6 * 1988 and len(pps) == 96 and count["prime_power"] == 96 * 11 * 4 and count["formed"] == 11 * sum(a <= 5000 for a in pps) >= 400,
+            detail="%d bad of %r: %s" % (len(bad), count, bad[:5]))
 
 
 @harness("C11", "scale.integer_kinds", functions=[CH + ":Equilibrium.__rmul__", CH + ":Equilibrium.__mul__"], kind="data")
